@@ -247,7 +247,8 @@ func PureExternal(fn *types.Func) bool {
 	case "fmt":
 		return strings.HasPrefix(name, "Sprint") || name == "Errorf"
 	case "k8s.io/apimachinery/pkg/api/errors", "k8s.io/apimachinery/pkg/labels", "k8s.io/apimachinery/pkg/api/equality",
-		"k8s.io/apimachinery/pkg/conversion", "k8s.io/apimachinery/pkg/types", "k8s.io/apimachinery/pkg/runtime/schema":
+		"k8s.io/apimachinery/pkg/conversion", "k8s.io/apimachinery/pkg/types", "k8s.io/apimachinery/pkg/runtime/schema",
+		"k8s.io/apimachinery/third_party/forked/golang/reflect":
 		return true
 	case "k8s.io/klog/v2", "k8s.io/apimachinery/pkg/util/runtime":
 		return !strings.HasPrefix(name, "Fatal") && !strings.HasPrefix(name, "Exit") && name != "Must"
@@ -888,6 +889,9 @@ func (s *Summaries) AtomKilledBy(a *Atom, mod map[string]bool, addrTaken map[typ
 				return false
 			}
 			name := strings.TrimSuffix(t.S, "...")
+			if i := strings.Index(name, "#"); i >= 0 {
+				name = name[:i] // one result of a call
+			}
 			if f := s.ByName[name]; f != nil {
 				for r := range s.ReadOf(f) {
 					if mod[r] || mod[r+"[]"] {
